@@ -13,6 +13,7 @@ import HL.Lemmas.LexLocal
 import HL.Lemmas.LexCover
 import HL.Lemmas.LexMisc
 import HL.Lemmas.LexCache
+import HL.Generated.Expect.PureLexer
 namespace HL.Props.C06
 open HL HL.Lex HL.Spec.LexSpec
 
